@@ -994,16 +994,7 @@ func (st *fstate) transfer(ins ssa.Instruction) {
 			st.storeInto(x, st.l(x.Chan), st.r(x.X), x.X.Type(), "send", describeInstr(x))
 		}
 	case *ssa.Return:
-		for i, res := range x.Results {
-			if _, isC := res.(*ssa.Const); isC {
-				continue
-			}
-			if i >= len(st.sum.RetLoc) {
-				continue
-			}
-			// recorded raw; resolved in finish()
-			_ = res
-		}
+		// results are read off the final value facts in finish()
 	}
 }
 
@@ -1153,12 +1144,7 @@ func (st *fstate) storeIntoEff(locs Set, vr Set, e *Effect) {
 	}
 }
 
-// retainRaw keeps raw (possibly fresh) sources per destination; resolved in finish().
-type rawRetain struct {
-	src string
-	eff *Effect
-}
-
+// retain keeps raw (possibly fresh) sources per destination; they are resolved in finish().
 func (st *fstate) retain(dst, src string, e *Effect) {
 	m := st.sum.Retains[dst]
 	if m == nil {
